@@ -26,6 +26,12 @@ cd "$(dirname "$0")"
   echo "other ten properties, run against their own check): 17 of 20 reported at once; C06_m4 (omitted slice end index), C10_m5"
   echo "(shared block table: reported by C08/C11 only) and C20_m5 (range collection stored twice in the tree) led to the"
   echo "call-site clauses on reflect.Value.Slice, the C10 tag on addBlocks/Set.parse and the parseControl postconditions."
+  echo "A fourth round (\`_m6\`, \`_m7\`, all 20 properties, agents asked for changes away from the obvious places): 33 of 40"
+  echo "reported at once; the seven misses (C03_m7 comment delimiters not passed to the lexer, C05_m6 kind before Ranger"
+  echo "interface, C06_m7 indirect stopping at non-empty interfaces, C07_m7 context kept in the pooled runtime, C08_m7 empty"
+  echo "yield content, C09_m6 getTemplate dropping a template that failed to parse, C17_m6 an extra error exit in the map arm"
+  echo "of resolveIndex) each led to a new postcondition or call-site clause. First-exposure detection by the property's own"
+  echo "check was thus 43/60, 16/20, 17/20 and 33/40 over the four rounds; after strengthening, all 140 are reported."
   echo
   echo "# Part II — the round-0 plan (kept for reference; Part I wins where they differ)"
   echo
